@@ -4,6 +4,9 @@ CONSTANTS
   Stable = TRUE
   KeySet = {1, 2, 3, 4}
   ValSet = {1, 2, 3}
+  HashVals = {}
+  IntKeys = {}
+  NegKeys = {}
   ShardCounts = {1, 2, 3, 4, 5}
 INVARIANTS TypeOK RouterInRange Equiv OneHome
 PROPERTIES ReadOnly
